@@ -6,6 +6,7 @@ import os
 
 LIMIT_ATTRS = ('_send_record_limit', '_recv_record_limit', 'send_record_limit', 'recv_record_limit',
                '_peer_record_size_limit', '_user_record_limit', 'recordSize')
+FLAG_ATTRS = ('_middlebox_compat_mode', 'allow_plaintext_alert', 'early_data_ok', 'max_early_data')
 FILES = ('tlslite/tlsconnection.py', 'tlslite/tlsrecordlayer.py', 'tlslite/recordlayer.py')
 
 
@@ -21,6 +22,7 @@ class _V(ast.NodeVisitor):
         self.limit_sites = []
         self.key_sites = []
         self.guard_sites = []
+        self.flag_sites = []
         self.prev_defrag_guard = {}
 
     def visit_FunctionDef(self, node):
@@ -50,6 +52,9 @@ class _V(ast.NodeVisitor):
             if isinstance(tg, ast.Attribute) and tg.attr in LIMIT_ATTRS:
                 self.limit_sites.append((self.fname, self.func[-1] if self.func else '<module>', _src(tg),
                                          ' && '.join(self.guards), _src(node.value)))
+            if isinstance(tg, ast.Attribute) and tg.attr in FLAG_ATTRS:
+                self.flag_sites.append((self.fname, self.func[-1] if self.func else '<module>', _src(tg),
+                                        ' && '.join(self.guards), _src(node.value)))
         self.generic_visit(node)
 
     def visit_Call(self, node):
@@ -63,7 +68,7 @@ class _V(ast.NodeVisitor):
 
 
 def scan(repo):
-    lim, key, grd = [], [], []
+    lim, key, grd, flg = [], [], [], []
     for fn in FILES:
         with open(os.path.join(repo, fn)) as f:
             tree = ast.parse(f.read())
@@ -72,7 +77,8 @@ def scan(repo):
         lim += v.limit_sites
         key += v.key_sites
         grd += v.guard_sites
-    return lim, key, grd
+        flg += v.flag_sites
+    return lim, key, grd, flg
 
 
 # ---- tables the C01/C02 models were written against (/repo 7b4ef0e); regenerate with `python c01_sites.py /repo`
@@ -112,23 +118,50 @@ EXPECTED_GUARD_SITES = [
     ('tlsrecordlayer.py', '_getMsg', 'self.version > (3, 3) and subType in (HandshakeType.client_hello, HandshakeType.end_of_early_data, HandshakeType.server_hello, HandshakeType.finished, HandshakeType.key_update) and (not self._defragmenter.is_empty())'),
 ]
 
+EXPECTED_FLAG_SITES = [   # where the tolerance for unprotected / undecryptable records opens and closes
+    ('tlsconnection.py', '_clientTLS13Handshake', 'self._middlebox_compat_mode', '', 'False'),
+    ('tlsconnection.py', '_serverTLS13Handshake', 'self._middlebox_compat_mode', '', 'False'),
+    ('tlsconnection.py', '_serverGetClientHello', 'self._recordLayer.max_early_data', 'ver_ext and (3, 4) in ver_ext.versions && early_data', 'settings.max_early_data'),
+    ('tlsconnection.py', '_serverGetClientHello', 'self._recordLayer.early_data_ok', 'ver_ext and (3, 4) in ver_ext.versions && early_data', 'True'),
+    ('tlsrecordlayer.py', '__init__', 'self._middlebox_compat_mode', '', 'True'),
+    ('tlsrecordlayer.py', '_getNextRecord', 'self._recordLayer.early_data_ok', 'header.type == ContentType.application_data or (self.version > (3, 3) and header.type == ContentType.change_cipher_spec) && header.type == ContentType.change_cipher_spec', 'early_data_ok'),
+    ('tlsrecordlayer.py', '_handshakeStart', 'self._recordLayer.allow_plaintext_alert', '', 'True'),
+    ('tlsrecordlayer.py', '_handshakeDone', 'self._recordLayer.allow_plaintext_alert', '', 'False'),
+    ('recordlayer.py', '__init__', 'self.allow_plaintext_alert', '', 'True'),
+    ('recordlayer.py', '__init__', 'self.max_early_data', '', '0'),
+    ('recordlayer.py', 'recvRecord', 'self.early_data_ok', '', 'False'),
+]
+
+
+def _facts(rows):
+    """Compared as a multiset of (file, target, guard, value): the name of the enclosing function is
+    documentation only, so moving a statement into an extracted helper does not break the tie."""
+    from collections import Counter
+    return Counter((r[0],) + tuple(r[2:]) for r in rows)
+
+
+def _diff(kind, got, exp):
+    g, e = _facts(got), _facts(exp)
+    out = ['unexpected/changed %s: %r' % (kind, k) for k in (g - e)]
+    out += ['%s gone/changed: %r' % (kind, k) for k in (e - g)]
+    return out
+
 
 def diff_sites(repo):
     """Returns (limit_diffs, key_diffs): human readable differences between /repo and the expected tables."""
-    lim, key, grd = scan(repo)
-    exp_lim = [x for x, _ in EXPECTED_LIMIT_SITES]
-    d1 = ['unexpected/changed limit site: %r' % (x,) for x in lim if x not in exp_lim]
-    d1 += ['limit site gone/changed: %r' % (x,) for x in exp_lim if x not in lim]
-    d2 = ['unexpected/changed key-change site: %r' % (x,) for x in key if x not in EXPECTED_KEY_SITES]
-    d2 += ['key-change site gone/changed: %r' % (x,) for x in EXPECTED_KEY_SITES if x not in key]
-    d2 += ['unexpected/changed defragmenter guard: %r' % (x,) for x in grd if x not in EXPECTED_GUARD_SITES]
-    d2 += ['defragmenter guard gone/changed: %r' % (x,) for x in EXPECTED_GUARD_SITES if x not in grd]
+    lim, key, grd, flg = scan(repo)
+    d1 = _diff('limit site', lim, [x for x, _ in EXPECTED_LIMIT_SITES])
+    d2 = _diff('key-change site', key, EXPECTED_KEY_SITES)
+    d2 += _diff('defragmenter guard', grd, EXPECTED_GUARD_SITES)
+    d2 += _diff('tolerance-flag site', flg, EXPECTED_FLAG_SITES)
     return d1, d2
 
 
 if __name__ == '__main__':
     import sys
-    lim, key, grd = scan(sys.argv[1] if len(sys.argv) > 1 else '/repo')
+    lim, key, grd, flg = scan(sys.argv[1] if len(sys.argv) > 1 else '/repo')
+    for x in flg:
+        print('F', x)
     for x in lim:
         print('L', x)
     for x in key:
